@@ -380,6 +380,21 @@ def run(chk, repo, tier):
         chk.ob('R06.5', okf, GD, init, key='range-handed-to-base',
                what='the estimator passes (lower, upper) or None to the base '
                     'constructor on every path')
+        # "no range" is decided by identity with None, never by truth value:
+        # a lower bound of 0 K is a bound
+        truthy_tests = []
+        for p in fpaths:
+            for k, pol in p.conds():
+                for lit in sym.lits_of(k, pol):
+                    for at in sym.bool_atoms(lit):
+                        if at[0] == 'truthy' and sym.mentions(
+                                at[1], lambda x: x[0] == 'attr'
+                                and x[2] == 'get_range'):
+                            truthy_tests.append(sym.show(at)[:120])
+        chk.ob('R06.5', not truthy_tests, GD, init, key='range-by-identity',
+               what='whether the estimate has a range is decided with '
+                    '`is None`, not by the truth value of a bound (0 K is a '
+                    'bound)', found='; '.join(sorted(set(truthy_tests))[:3]))
 
     # ---- R06.6 ----------------------------------------------------------
     pset2, _, est2 = c01.find_registration(repo)
